@@ -76,6 +76,15 @@ type Machine struct {
 	LastPC   uint64
 	// NextPC after a Host exit: ı + 1 + skip(ı) (where Ψ_H resumes).
 	NextPC uint64
+	// SbrkRegs: bit i set when register i was written by an sbrk instruction.
+	SbrkRegs uint16
+	// DjumpTable: the last executed instruction was a dynamic jump that
+	// consulted the jump table (address neither halt, 0, misaligned nor too big).
+	DjumpTable bool
+	// AccessAddr/AccessLen: the memory access of the last executed instruction
+	// (AccessLen = 0 when it made none).
+	AccessAddr uint32
+	AccessLen  int
 }
 
 // Run is Ψ: steps until a non-continue outcome or until maxSteps instructions
@@ -173,6 +182,8 @@ func (m *Machine) Step() Exit {
 		}
 	}
 	m.LastOp, m.LastPC = op, pc
+	m.DjumpTable = false
+	m.AccessLen = 0
 	l := p.Skip(pc)
 	next := pc + 1 + uint64(l)
 	w := &m.Regs
@@ -200,6 +211,7 @@ func (m *Machine) Step() Exit {
 		if a == 0 || uint64(a) > p.NJ*JumpAlign || a%JumpAlign != 0 {
 			return panicExit()
 		}
+		m.DjumpTable = true
 		e := p.Entry(uint64(a)/JumpAlign - 1)
 		if e.Huge || !p.IsBlockStart(e.Val) {
 			return panicExit()
@@ -220,6 +232,7 @@ func (m *Machine) Step() Exit {
 	}
 	load := func(addr64 uint64, n int, signed bool, dst int) Exit {
 		addr := uint32(addr64)
+		m.AccessAddr, m.AccessLen = addr, n
 		if r := m.Mem.Check(addr, n, false); !r.OK {
 			return memExit(r, addr, n)
 		}
@@ -233,6 +246,7 @@ func (m *Machine) Step() Exit {
 	}
 	store := func(addr64 uint64, n int, v uint64) Exit {
 		addr := uint32(addr64)
+		m.AccessAddr, m.AccessLen = addr, n
 		if r := m.Mem.Check(addr, n, true); !r.OK {
 			return memExit(r, addr, n)
 		}
@@ -356,6 +370,7 @@ func (m *Machine) Step() Exit {
 			w[rd] = a
 		case 101: // sbrk
 			m.UsedSbrk = true
+			m.SbrkRegs |= 1 << uint(rd)
 			w[rd] = m.Mem.Sbrk(a)
 		case 102:
 			w[rd] = uint64(bits.OnesCount64(a))
